@@ -4,7 +4,8 @@ Model: Link/Keepalive.v, extracted entries 1 (run) and 2 (trace judges) of tag "
 Implementation side: the REAL client, connect() on an in-memory socket, then a sequence of
   Tick dt (virtual clock) | Service (= client.loop(timeout=0) with select.select of paho.mqtt.client
   replaced by a fake that reports readiness from the FakeSock) | AppSend (publish qos 0) |
-  Rx CONNACK/PINGRESP/other/EOF (bytes put into the socket buffer).
+  Rx CONNACK/PINGRESP/other/EOF (bytes put into the socket buffer) | Reconnect (client.reconnect(): histories span
+  several connections, e.g. keepalive timeout -> reconnect -> serviced before / after the new CONNACK).
 Recorded: every wire packet with its time, every packet handled, socket close, on_disconnect(rc),
 every loop() result, and the final (_last_msg_in, _last_msg_out, _ping_t, _state, socket, unread).
 The whole trace and the final state are compared with the model; the four clauses of C08 are judged
@@ -16,8 +17,10 @@ from vlib import impl, model
 
 RULE = ("K in {0,1,2,10,60,65535}; d in {0,1,2,K//4,K//2,K-1,K,K+3}; online-generated op sequences (40-120 ops) with "
         "service gaps <= d, PINGRESP scheduled K-d-1, K-d, K-d+1, K-1, K, K+1, K+d after each observed PINGREQ or never, "
-        "inbound bursts queued ahead of the PINGRESP, application sends, late CONNACK, peer EOF; plus every op sequence "
-        "up to length L (5 quick / 7 thorough) over {Tick 1, Service, AppSend, Rx PINGRESP, Rx other} after CONNACK for K in {1,2}. "
+        "inbound bursts queued ahead of the PINGRESP, application sends, late CONNACK, peer EOF, reconnect() after a close or "
+        "at random with the new CONNACK at once / late / never; plus every op sequence up to length L (5 quick / 7 thorough) over "
+        "{Tick 1, Service, AppSend, Rx PINGRESP, Rx other} after CONNACK and up to L over {Tick 1, Service, Rx CONNACK, Rx PINGRESP, "
+        "Reconnect} after a keepalive timeout, for K in {1,2}. "
         "distinct = (K, op list); non-trivial = the trace contains a PINGREQ or a keepalive close")
 EXTRACT_TAGS = ["timing"]
 GENERATED_ITEMS = ["_check_keepalive", "loop_misc"]
@@ -153,6 +156,9 @@ class Real:
             self.log.append([C.t, 8, int(rc)])
         elif code == 2:
             c.publish("t", b"x", 0)
+        elif code == 4:
+            c.reconnect()
+            self.s = s = c.socks[-1]
         elif code == 3:
             if c._sock is not None:
                 p = op[1]
@@ -202,8 +208,8 @@ def encode_ops(K, ops):
 
 
 def decode_model(flat):
-    i = flat.index(-1) if -1 in flat else len(flat)
-    # -1 can also be an rc-free value? times/codes/args are >= 0 in model output, so the first -1 is the marker
+    # events are triples (time >= T0, code, arg); the final-state marker is a -1 in the time position
+    i = next((j for j in range(0, len(flat), 3) if flat[j] == -1), len(flat))
     tr = [flat[j:j + 3] for j in range(0, i, 3)]
     return tr, flat[i + 1:]
 
@@ -238,6 +244,8 @@ def oracle(K, d, ops, tr, fin, judge):
     for idx, (t, code, arg) in enumerate(tr):
         if code in (3, 4, 5):
             ltx = t
+        if code == 3:
+            open_ = True                      # (re)connect: new socket
         if code == 6:
             open_ = False
         if open_ and t - ltx >= K + d:
@@ -246,9 +254,10 @@ def oracle(K, d, ops, tr, fin, judge):
     # clause 2: an unanswered PINGREQ sent at t: by t+K+d socket closed, exactly one on_disconnect (KEEPALIVE
     # unless the peer closed first), a non-zero loop result, not connected
     for idx, (t, code, arg) in enumerate(tr):
-        if code == 4:
+        if code == 3:
+            ping_out, n_cb_since, n_cb16_since, closed_at, rc_nonzero, eof_read_since = None, 0, 0, None, False, False
+        elif code == 4:
             ping_out, n_cb_since, n_cb16_since, closed_at, rc_nonzero, eof_read_since = t, 0, 0, None, False, False
-            open_after = True
         elif code == 2 and arg == 1:
             ping_out = None
         elif code == 2 and arg == 3:
@@ -309,6 +318,15 @@ def gen_online(rng, K, d, n_ops):
             r.do(op)
         while len(ops) < n_ops:
             now = C.t
+            if (r.c._sock is None and rng.random() < 0.5) or rng.random() < 0.01:
+                do([4, 0])
+                pending, eof_sent, eof_at, sent_connack = [], False, None, False
+                x = rng.random()
+                connack_at = now if x < 0.5 else (now + rng.choice([1, max(K - 1, 0), K, K + 1]) if x < 0.85 else float("inf"))
+                for _ in range(rng.randrange(0, 3)):       # serviced before the CONNACK is there
+                    do([1, 0])
+                    acc = 0
+                seen_pings = r.pings()
             if not sent_connack and now >= connack_at and not eof_sent:
                 do([3, 0])
                 sent_connack = True
@@ -453,6 +471,17 @@ def run(ctx, out):
                         tr, fin = real_run(K, ops)
                         batch.append(("exhaustive", K, d, ops, tr, fin))
                         break
+    # after a keepalive timeout: reconnect and what follows
+    Lr = 5 if ctx.quick else 7
+    alpha_r = [[0, 1], [1, 0], [3, 0], [3, 1], [4, 0]]
+    for K in (1, 2):
+        prefix = [[3, 0], [1, 0]] + [[0, 1], [1, 0]] * (2 * K)          # idle: PINGREQ at K, timeout at 2K
+        for n in range(0, Lr + 1):
+            for seq in itertools.product(alpha_r, repeat=n):
+                ops = prefix + [list(o) for o in seq]
+                if sw_ok(1, ops):
+                    tr, fin = real_run(K, ops)
+                    batch.append(("exhaustive-reconnect", K, 1, ops, tr, fin))
     out.exhaustive = True
     check_batch(out, batch)
     batch = []
